@@ -633,7 +633,7 @@ int64_t carquet_rle_decode_levels_prefixed(
 
     /* Read 4-byte length prefix (little-endian) */
     uint32_t rle_length = carquet_read_u32_le(input);
-    if (4 + rle_length > input_size) {
+    if (rle_length > input_size - 4) {
         if (bytes_consumed) *bytes_consumed = 0;
         return -1;
     }
@@ -642,7 +642,7 @@ int64_t carquet_rle_decode_levels_prefixed(
         input + 4, rle_length, bit_width, output, max_values);
 
     if (bytes_consumed) {
-        *bytes_consumed = 4 + rle_length;
+        *bytes_consumed = 4 + (size_t)rle_length;
     }
 
     return count;
